@@ -260,7 +260,8 @@ fn ctf_v9(f: &FieldSpec) -> CTplField {
 fn v9_plain_records(fields: &[FieldSpec], body: &[u8]) -> Result<(Vec<CField>, usize, Vec<u8>), RefStop> {
     let rs: usize = fields.iter().map(|f| f.len as usize).sum();
     if rs == 0 {
-        return nc("v9 template with record size 0");
+        // a definition whose fields add up to zero bytes cannot delimit records: data for it is undecodable
+        return Err(RefStop::UnknownTemplateV9(0));
     }
     let n = body.len() / rs;
     let mut flat = vec![];
